@@ -195,14 +195,19 @@ CHECKS['C06'] = dict(
          'em/strong match has non-empty content between two delimiter strings of equal length 1 or 2 made of one and '
          'the same character * or _; any two matches are disjoint or properly nested. Proving these exposed three '
          'genuine defects (trailing backslash taken into a run; a pending "!" surviving an escape or a code span), '
-         'repaired in /repo. NOT proved: that the matches chosen are those of the specification\'s delimiter algorithm '
-         '(flanking, rule of three, nearest opener) - decided by exhaustive small-alphabet and random exploration of '
-         'the implementation against an independent declarative reading of CommonMark 6.2 (incl. backslash escapes). '
-         'Model tied to the code by an inline-level correspondence (token tree with attributes) on the same exhaustive '
-         'strings.',
+         'repaired in /repo. The CHOICE of matches is the specification\'s: an independent formal reading of CommonMark '
+         '0.30 section 6.2 + appendix in Lean (Spec/Emphasis.lean: runs, flanking, underscore rules, rule of three, '
+         'openers_bottom) and the refinement theorem C06_emphasis_is_spec_partial - for every text without backslash, '
+         'backquote, brackets, < and & (and without eight exotic whitespace code points, C06_whitespace_deviation) the '
+         'matches of find_core_tokens are, one for one and in order, the specification\'s emphasis nodes; the opener '
+         'bottoms never change a result (C06_bottoms_sound). The theorem is re-checked on the real find_core_tokens '
+         '(c06.theorem), the Lean specification is compared with the independent Python reading (spec.emph). Texts '
+         'with backslash escapes, "!" and "[": exhaustive small-alphabet and random exploration against the Python '
+         'oracle. Model tied to the code by an inline-level correspondence (token tree with attributes) on the same '
+         'exhaustive strings.',
     note='Trusted: Lean kernel (axioms propext/Classical.choice/Quot.sound at most); inline correspondence harness; '
          'spec_emph.py as oracle for the unproved clause (self-checked against the corpus examples each run).',
-    technique='Lean 4 proof (delimiter-stack invariant, decreasing measure for process_emphasis) + inline correspondence + exhaustive differential against a specification oracle for the choice of matches',
+    technique='Lean 4 proof (delimiter-stack invariant, decreasing measure; refinement of an independent Lean specification of CommonMark 6.2 by simulation between the delimiter list and the specification stack) + inline correspondence + hypothesis evaluation with conclusion checked on the implementation + exhaustive differential against a second specification oracle',
     ref='DESIGN.md section 5, C06 and section 12')
 
 CHECKS['C04'] = dict(
